@@ -19,7 +19,8 @@ DECIDED = ("MIR makes unwinding explicit, so each clause is a path property: R5.
            "constructed only after a write at its address has succeeded (so a refused installation unwinds with no guard for the refused "
            "target: the guard's destructor would repeat the refused protection change and panic during unwinding); R5.9 every returning path "
            "of the restore guard's destructor performs the restoring write - there is no edge (std::thread::panicking() in particular) on "
-           "which it returns without restoring")
+           "which it returns without restoring; R5.10 the trampoline allocator returns only a mapping it accepted, releases what it "
+           "rejects and otherwise diverges (an exhausted search is one clean panic, not a dangling pointer or an endless retry)")
 NOT_DECIDED = ("aborts caused by allocation failure inside std; panics inside a user fake with a non-unwinding ABI (excluded by the property)")
 
 ABORTING = ("std::process::abort", "std::process::exit", "std::panic::catch_unwind", "std::intrinsics::abort", "core::intrinsics::abort",
@@ -132,6 +133,11 @@ def run(ck, models, tier):
             # ---------------- R5.9 unwinding restores: the guard's destructor restores on every returning path, the panicking() edge included
             if g_.drop_fn:
                 destructor_always_restores(ck, tm, g_, "R5.9")
+        # ---------------- R5.10 an installation that cannot obtain memory fails with one panic: the allocator returns only accepted
+        # mappings and its only other exit diverges (C11 R11.1-R11.3, R11.5 repeated)
+        if tm.arch != "arm":
+            from .c11 import allocator_obligations
+            allocator_obligations(ck, tm, lambda r: "R5.10")
         # ---------------- R5.7 no call-count state survives a lifetime that ended by unwinding: counters restart at every installation
         from .c07 import install_resets_counter
         install_resets_counter(ck, tm, "R5.7")
